@@ -605,6 +605,52 @@ func (x *run) partialPool(k, have int) {
 	x.flood(start, 4)
 }
 
+// fullProposal: more valid transactions are pending everywhere than a block can carry, so every proposal is cut to
+// exactly the block capacity.
+func (x *run) fullProposal(k int) {
+	for i := 0; i < k; i++ {
+		tx := x.newTx()
+		x.txs = append(x.txs, tx)
+		to := []int{}
+		for j := range x.c.Nodes {
+			if x.c.GiveTx(j, tx) == nil {
+				to = append(to, j)
+			}
+		}
+		x.emit(map[string]any{"event": "txgiven", "tx": tx.Hash().StringLE(), "to": to})
+	}
+	x.res.Inc("fullproposal_scenes", 1)
+}
+
+// splitPools: pairs of valid transactions that conflict with each other (Conflicts attribute, common signer); one half
+// of the validators has pooled one side, the other half the other side, nobody both.
+func (x *run) splitPools(pairs int) {
+	n0 := x.c.Nodes[0]
+	e := x.c.Net.Executor(x.t, n0.BC)
+	for p := 0; p < pairs; p++ {
+		a := x.newTx()
+		x.ntx++
+		b := e.NewUnsignedTx(x.t, e.NativeHash(x.t, nativenames.Gas), "transfer", e.Validator.ScriptHash(), util.Uint160{byte(x.ntx), 9}, int64(2000+x.ntx), nil)
+		b.ValidUntilBlock = a.ValidUntilBlock
+		b.Nonce = uint32(x.ntx*1000 + x.id)
+		b.Attributes = []transaction.Attribute{{Type: transaction.ConflictsT, Value: &transaction.Conflicts{Hash: a.Hash()}}}
+		b = e.SignTx(x.t, b, 1_0000000, []neotest.Signer{e.Validator}...)
+		var toA, toB []int
+		for j := range x.c.Nodes {
+			if j < x.c.N/2 {
+				if x.c.GiveTx(j, a) == nil {
+					toA = append(toA, j)
+				}
+			} else if x.c.GiveTx(j, b) == nil {
+				toB = append(toB, j)
+			}
+		}
+		x.emit(map[string]any{"event": "txgiven", "tx": a.Hash().StringLE(), "to": toA, "conflicts_with": b.Hash().StringLE()})
+		x.emit(map[string]any{"event": "txgiven", "tx": b.Hash().StringLE(), "to": toB, "conflicts_with": a.Hash().StringLE()})
+	}
+	x.res.Inc("splitpools_scenes", 1)
+}
+
 func runScene(t *testing.T, res *vh.Result, tr *vh.Trace, id int, n int, scene string, a, b int) error {
 	dir, err := os.MkdirTemp(os.Getenv("VERIF_WORK"), "c19")
 	if err != nil {
@@ -612,7 +658,11 @@ func runScene(t *testing.T, res *vh.Result, tr *vh.Trace, id int, n int, scene s
 	}
 	defer os.RemoveAll(dir)
 	x := &run{t: t, tr: tr, res: res, r: vh.Rand(int64(id)), silent: map[int]bool{}, given: map[int]map[int]bool{}, id: id}
+	if scene == "fullproposal" {
+		MaxTxPerBlock = 3
+	}
 	c, err := NewCluster(n, dir, func(ev map[string]any) { tr.Emit(ev) })
+	MaxTxPerBlock = 16
 	if err != nil {
 		return err
 	}
@@ -628,6 +678,10 @@ func runScene(t *testing.T, res *vh.Result, tr *vh.Trace, id int, n int, scene s
 			x.latePrep()
 		case "partialpool":
 			x.partialPool(a, b)
+		case "fullproposal":
+			x.fullProposal(a)
+		case "splitpools":
+			x.splitPools(a)
 		}
 		if !x.synchronous(3, 6*n, true) {
 			break
@@ -711,7 +765,7 @@ func TestDriver(t *testing.T) {
 			s    string
 			a, b int
 		}
-		for _, s := range []sc{{"lateprep", 0, 0}, {"partialpool", 4, 1}, {"partialpool", 6, 2}, {"partialpool", 5, 3}, {"partialpool", 4, 0}} {
+		for _, s := range []sc{{"lateprep", 0, 0}, {"partialpool", 4, 1}, {"partialpool", 6, 2}, {"partialpool", 5, 3}, {"partialpool", 4, 0}, {"fullproposal", 4, 0}, {"splitpools", 2, 0}, {"splitpools", 1, 0}} {
 			if err := runScene(t, res, tr, 4000+k, n, s.s, s.a, s.b); err != nil {
 				tr.Close()
 				t.Fatalf("scene run %d (%s): %v", k, s.s, err)
